@@ -258,9 +258,11 @@ class VarzAggregator(object):
     c = math.ceil(k)
     if f == c:
       return values[int(k)]
-    d0 = values[int(f)] * (c - k)
-    d1 = values[int(c)] * (k - f)
-    return d0 + d1
+    lo = values[int(f)]
+    hi = values[int(c)]
+    # lo + a fraction of the gap stays inside [lo, hi] and is monotone in k,
+    # a weighted sum of the two is not (each product rounds on its own).
+    return min(hi, lo + (hi - lo) * (k - f))
 
   @staticmethod
   def _Downsample(lst, target_size):
